@@ -241,6 +241,10 @@ class K2Case:
     def __init__(self, name: str, main: Pgm, defs=(), act_stdin: Optional[str] = None):
         self.name, self.main, self.defs, self.act_stdin = name, main, list(defs), act_stdin
 
+    def n_symbols(self) -> int:
+        t = self.own_text()
+        return sum(1 for i in range(4) if ('@[S%d]@' % i) in t or (i < 2 and '@[L]@' in t))
+
     def own_text(self) -> str:
         """the text without the standard definitions of L, P, E"""
         return self.text().replace(sp.DEF_L, '')
@@ -806,8 +810,9 @@ def k3_whole(s0: str, s1: str) -> bool:
 
 
 def _explain(run, expected):
+    import os
     import sys
-    if 'crosshair' in sys.modules:
+    if 'crosshair' in sys.modules and not os.environ.get('VSYM_C10_DEBUG'):
         return
     sys.stderr.write('status %s %s\n  expected %r\n  got      %r\n' % (run.status, run.failure_text()[:800], expected, run.calls))
 
@@ -884,7 +889,8 @@ def _k4_cases(tier: str) -> List[K3Case]:
 
 def _codes(tier_case) -> tuple:
     if tier_case.get('all_codes'):
-        return tuple(range(256))
+        lo, hi = tier_case['all_codes']
+        return tuple(range(lo, hi + 1))
     return CODES_THOROUGH if tier_case.get('tier') == 'thorough' else CODES_QUICK
 
 
@@ -998,7 +1004,7 @@ def obligations(tier: str) -> List[Ob]:
                       '<= %d characters (any characters), every exit code in Z, %s' % (
                           drv, n, m, 'no timeout, no OS failure' if lean else
                           'every timeout in N or none, every OS failure kind in {none, ValueError, OSError, TimeoutExpired}'),
-                timeout=300, real=REAL_K1, stubs=(STUB_SUBPROCESS,),
+                timeout=(900 if lean else 300), real=REAL_K1, stubs=(STUB_SUBPROCESS,),
                 outside=('what the kernel does with the argument vector; real shells',),
                 entry='OsServices.command_executor.execute(Command, settings, files)'))
     obs.append(Ob(name='K1:seeded-shell-args-forgotten', fn='k1_execute',
@@ -1021,7 +1027,8 @@ def obligations(tier: str) -> List[Ob]:
             bound='program text %r (after the definitions of L, P, E%s%s): every value of S0, S1, S2, S3 of <= %d characters '
                   '(any characters)' % (c.main.text(), ''.join(', %s = %s' % (n, p.text()) for n, p in c.defs),
                                         '' if c.act_stdin is None else ', [setup] stdin = ' + sp.T[c.act_stdin][0], m2),
-            timeout=300, real=REAL_K2, stubs=(STUB_SYMBOLS, STUB_SINK),
+            timeout=(300 if tier == 'quick' or c.n_symbols() <= 2 else 600 if c.n_symbols() == 3 else 1500),
+            real=REAL_K2, stubs=(STUB_SYMBOLS, STUB_SINK),
             outside=('validation of the program (existence of files) - C03', 'the file / process layer below write_to - C14'),
             entry='test-case text -> parser -> def / stdin instructions -> command-line actor parser -> Program'))
     obs.append(Ob(name='K2:seeded-act-stdin-first', fn='k2_denote',
@@ -1081,16 +1088,20 @@ def obligations(tier: str) -> List[Ob]:
                 timeout=300, real=REAL_K3 + REAL_K4, stubs=(STUB_SUBPROCESS, STUB_SANDBOX),
                 entry='full_execution.execute on the parsed test case'))
     if tier == 'thorough':
-        obs.append(Ob(
-            name='K4:outcome/command/all-codes', fn='k4_outcome', case=dict(scenario='outcome/command', all_codes=True),
-            kernel='K4', bound='exit code of the action to check: every value 0..255; every operand K0 in Z',
-            timeout=1800, real=REAL_K3, stubs=(STUB_SUBPROCESS, STUB_INT, STUB_SANDBOX)))
-        for ph in PHASES:
+        for lo in (0, 64, 128, 192):
+            rng = (lo, lo + 63)
             obs.append(Ob(
-                name='K4:instr/%s/run/all-codes' % ph, fn='k4_instruction',
-                case=dict(scenario='instr/%s/run' % ph, all_codes=True), kernel='K4', selector=True,
-                bound='exit code of the program of `run` in [%s]: every value 0..255, with and without -ignore-exit-code' % ph,
-                timeout=1800, real=REAL_K3 + REAL_K4, stubs=(STUB_SUBPROCESS, STUB_SANDBOX)))
+                name='K4:outcome/command/codes-%d-%d' % rng, fn='k4_outcome',
+                case=dict(scenario='outcome/command', all_codes=rng), kernel='K4',
+                bound='exit code of the action to check: every value %d..%d; every operand K0 in Z' % rng,
+                timeout=900, real=REAL_K3, stubs=(STUB_SUBPROCESS, STUB_INT, STUB_SANDBOX)))
+            for ph in PHASES:
+                obs.append(Ob(
+                    name='K4:instr/%s/run/codes-%d-%d' % ((ph,) + rng), fn='k4_instruction',
+                    case=dict(scenario='instr/%s/run' % ph, all_codes=rng), kernel='K4', selector=True,
+                    bound='exit code of the program of `run` in [%s]: every value %d..%d, with and without '
+                          '-ignore-exit-code' % ((ph,) + rng),
+                    timeout=900, real=REAL_K3 + REAL_K4, stubs=(STUB_SUBPROCESS, STUB_SANDBOX)))
     obs.append(Ob(name='K4:seeded-exit-code-le', fn='k4_outcome',
                   case=dict(scenario='outcome/file', oracle_bug='exit-code-le'), kernel='K4',
                   bound='seeded oracle error: `exit-code == K0` expected to hold when the code is <= K0', timeout=300,
